@@ -75,6 +75,13 @@ def label_value(idx: int, size: int, entries: str, additive: bool):
         return complex(idx + 1, scramble(idx) * 2.0 ** -60)
     if entries == "cscaled":  # a complex operator of ordinary shape scaled by 2^-60
         return complex((idx + 1) * 2.0 ** -60, scramble(idx) * 2.0 ** -60)
+    if entries in ("neardiag", "nearzero"):
+        # operators that LOOK diagonal / zero to np.allclose (off-diagonal entries k * 2^-40 <= 1e-8) but are not: a data-dependent shortcut
+        # guarded by allclose would take them.  Diagonal sums and off-diagonal sums never mix in a partial trace, so all sums stay exact.
+        n = int(round(size ** 0.5))
+        if entries == "neardiag" and idx % (n + 1) == 0:
+            return float(2 ** 20 * (idx + 1))
+        return (idx % 8191 + 1) * 2.0 ** -40
     if entries == "nearherm":
         # large entries that are symmetric up to a perturbation of a few units: np.allclose(X, X^T) holds (1e-5 relative) although X is
         # not symmetric - added after seeded change C02-5 (a "Hermitian" fast path guarded by allclose rebuilt the lower triangle)
@@ -91,7 +98,8 @@ def label_value(idx: int, size: int, entries: str, additive: bool):
 
 
 _DTYPES = {"sym": object, "pow": object, "int": np.int64, "intB": np.int64, "float": np.float64, "complex": np.complex128,
-           "u8": np.uint8, "i8": np.int8, "bool": np.bool_, "nearherm": np.int64, "ctiny": np.complex128, "cscaled": np.complex128}
+           "u8": np.uint8, "i8": np.int8, "bool": np.bool_, "nearherm": np.int64, "ctiny": np.complex128, "cscaled": np.complex128,
+           "neardiag": np.float64, "nearzero": np.float64}
 
 
 def labelled(rows: int, cols: int, entries: str, additive: bool = False) -> np.ndarray:
